@@ -45,6 +45,9 @@ def run(tier):
             misc.drop_row_alignment(chk, 'C03.droprow', prog, p, cfgname)
             misc.hole_fill_rule(chk, 'C03.droprow', prog, p, cfgname)
             misc.droprow_pointer_fixup_rule(chk, 'C03.droprow', prog, p, cfgname)
+        from ..rules import expand as _expand
+        chk.clause('C03.bcopy', 'the in-place shift that makes room in the caller workspace moves every byte of the subscript and value arrays behind the one that grows')
+        _expand.bcopy_rule(chk, 'C03.bcopy', prog, cfgname)
         n = 0
         for p in _drv.PRECS:
             n += factor_tail.run(chk, 'C03.D1', prog, p, cfgname)
